@@ -27,6 +27,22 @@ def _meta(typ):
 
 
 PROMISES = {}     # role -> [(step time, max_advance)] of the run in progress (C07)
+RUN = {"world": None, "lazy": False, "violations": []}
+
+
+def _check_lazy(sid, time):
+    """C10 observed at the BEGIN of a step of the real run (lazy_stepping on): no simulator this one feeds still has a step
+    earlier than `time` outstanding (scheduled or in progress)"""
+    w = RUN["world"]
+    if w is None or not RUN["lazy"]:
+        return
+    me = w.sims[sid]
+    for c in me.successors:
+        late = [t.time for t in c.next_steps if t.time < time]
+        if c.current_step is not None and c.current_step.time < time:
+            late.append(c.current_step.time)
+        if late:
+            RUN["violations"].append(f"{sid} begins its step at {time} while its consumer {c.sid} still has a step at {min(late)} outstanding")
 
 
 def promise_violations(name):
@@ -89,6 +105,7 @@ def make_sim_class(trace, spec, yields):
             return [{"eid": f"e{i}", "type": model} for i in range(num)]
 
         def step(self, time, inputs, max_advance):
+            _check_lazy(self.sid, time)
             for _ in range(yields):
                 yield asyncio.sleep(0)
             trace.append((time, json.dumps(inputs, sort_keys=True)))
@@ -254,6 +271,7 @@ def run_once(name, cfg, order, yields, prune=True):
     if not prune:
         scheduler.prune_dataflow_cache = lambda world: None
     world = mosaik.World(sim_config, skip_greetings=True, cache=cfg["cache"], debug=cfg["debug"])
+    RUN.update(world=world, lazy=cfg["lazy"], violations=[])
     try:
         ents = {}
         grouped = {r for g in groups for r in g}
@@ -339,6 +357,11 @@ def bounded_config_independence(tier, seed):
             if sum(len(t) for t in base.values()) > len(sims):
                 nontrivial += 1
             got = run_once(name, cfg, order, yld)
+            if RUN["violations"]:
+                failures.append({"desc": f"scenario {name} with {cfg}, start order {order}, yields {yld}: lazy stepping (C10): {RUN['violations'][0]}",
+                                 "case": {"scenario": name, "config": cfg, "start_order": order, "yields_per_step": yld, "property": "C10"}})
+                if len(failures) >= 5:
+                    break
             pv = promise_violations(name) if not isinstance(got, tuple) else []
             if pv:
                 failures.append({"desc": f"scenario {name} with {cfg}, start order {order}, yields {yld}: max_advance promise broken (C07): {pv[0]}",
@@ -376,7 +399,8 @@ def bounded_config_independence(tier, seed):
                       + ("(full cross product, yields in 0,1,3)" if tier == "thorough" else "(one axis at a time plus the opposite corner, yields in 0,2)")
                       + f"; transport: in-process only; the baseline run of each of the {with_reference} ungrouped scenarios is also compared with a "
                         "sequential reference semantics written from the statements of C02 and C03; in every run the max_advance handed to each step is "
-                        "checked against the steps that follow (C07)"),
+                        "checked against the steps that follow (C07), and with lazy_stepping on every step begin is checked against the outstanding steps "
+                        "of the simulator's consumers (C10)"),
             "cases": cases, "nontrivial": nontrivial, "failures": failures, "samples": samples,
             "known_instances": {"finding": "F4", "count": len(known), "first": known[:2],
                                 "classifier": "difference disappears when prune_dataflow_cache is a no-op in both runs"}}
